@@ -1,5 +1,5 @@
 """C13 — topology-aware policy property checked on resource-manager histories (see DESIGN.md)."""
-from vlib import core, tarun
+from vlib import core, tarun, barun
 
 LEVEL = "proof"
 
@@ -9,8 +9,10 @@ def run(res):
     names = core.lean_prove(res, "C13", res.tier == "thorough")
     res.rule = tarun.RULE
     res.assumptions += ["pool and CPU choices of the policy are oracles read off the implementation's grants (validity checked by the guarded model step)",
-                        "balloons-policy half of this property: see DESIGN.md (covered by the C02 harness where built)"]
+                        "balloons half: evaluated on the balloons histories by the BA driver (membership of stopped containers, quiescence, re-applied configuration); no Lean model of its own beyond C02's partition theorems"]
     tarun.run(res, "C13:")
+    # balloons half: same predicates on the balloons policy's histories
+    barun.run(res, "C13:")
     res.samples += [f"theorem {n}" for n in names[:30]]
 
 
